@@ -35,6 +35,8 @@ pub struct Conf {
     pub nbuf: usize,
     pub metadata: Vec<(String, Vec<u8>)>,
     pub block_ids: Option<(Vec<usize>, usize)>,
+    /// the average chunk size as the user states it (--avg-chunk-size / FilterBits::from_size); 0 = filter bits given directly
+    pub avg: usize,
 }
 
 pub fn block(id: usize, bs: usize) -> Vec<u8> {
@@ -99,7 +101,7 @@ pub fn concretise(sc: &Value, seed: u64) -> Conf {
         for &id in &ids {
             data.extend(block(id, bs));
         }
-        return Conf { data, alg: 2, bits: 0, min: 0, max: bs, window: 0, hl, ctype, clevel, nbuf, metadata, block_ids: Some((ids, bs)) };
+        return Conf { data, alg: 2, bits: 0, min: 0, max: bs, window: 0, hl, ctype, clevel, nbuf, metadata, block_ids: Some((ids, bs)), avg: 0 };
     }
     if sc.get("eqcorner").and_then(|v| v.as_bool()).unwrap_or(false) {
         // the corner of the storage rule: a chunk whose compressed size EQUALS its source size must be stored raw
@@ -124,7 +126,7 @@ pub fn concretise(sc: &Value, seed: u64) -> Conf {
         let hit = found.is_some();
         data.extend(found.unwrap_or_else(|| vec![b'Z'; bs]));
         data.extend((0..10).map(|_| lcg(&mut x) as u8));
-        let mut c = Conf { data, alg: 2, bits: 0, min: 0, max: bs, window: 0, hl, ctype, clevel, nbuf, metadata, block_ids: None };
+        let mut c = Conf { data, alg: 2, bits: 0, min: 0, max: bs, window: 0, hl, ctype, clevel, nbuf, metadata, block_ids: None, avg: 0 };
         if !hit {
             c.metadata.push(("eqcorner".into(), b"not found".to_vec()));
         }
@@ -141,7 +143,7 @@ pub fn concretise(sc: &Value, seed: u64) -> Conf {
             "max_4g_plus" => (0, 64, big + 1, 16),
             _ => (1, 64, big * 4, 32),
         };
-        return Conf { data, alg, bits: if alg == 2 { 0 } else { 9 }, min, max, window, hl, ctype, clevel, nbuf, metadata, block_ids: None };
+        return Conf { data, alg, bits: if alg == 2 { 0 } else { 9 }, min, max, window, hl, ctype, clevel, nbuf, metadata, block_ids: None, avg: 0 };
     }
     let alg = sc["alg"].as_u64().unwrap() as u32;
     let lenclass = sc["lenclass"].as_str().unwrap();
@@ -177,15 +179,24 @@ pub fn concretise(sc: &Value, seed: u64) -> Conf {
     let len = if !big && alg != 2 { len.min(avg * 200) } else { len };
     let data = gen_content(content, len, &mut x);
     if alg == 2 {
-        Conf { data, alg, bits: 0, min: 0, max: fixed, window: 0, hl, ctype, clevel, nbuf, metadata, block_ids: None }
+        Conf { data, alg, bits: 0, min: 0, max: fixed, window: 0, hl, ctype, clevel, nbuf, metadata, block_ids: None, avg: 0 }
     } else {
-        Conf { data, alg, bits, min, max, window, hl, ctype, clevel, nbuf, metadata, block_ids: None }
+        // the documented rule: the target is the stated average rounded DOWN to a power of two, filter bits = log2 of it minus 1
+        let p2 = 1usize << (bits + 1);
+        let avg = match sc.get("avg_off").and_then(|v| v.as_str()).unwrap_or("pow2") {
+            "plus1" => p2 + 1,
+            "max" => 2 * p2 - 1,
+            "mid" => p2 + p2 / 2 - 3,
+            _ => p2,
+        };
+        let (min, max) = (min.min(avg), max.max(avg));
+        Conf { data, alg, bits, min, max, window, hl, ctype, clevel, nbuf, metadata, block_ids: None, avg }
     }
 }
 
 impl Conf {
     pub fn chunker_config(&self) -> Config {
-        let f = FilterConfig { filter_bits: FilterBits(self.bits), min_chunk_size: self.min, max_chunk_size: self.max, window_size: self.window };
+        let f = FilterConfig { filter_bits: if self.avg > 0 { FilterBits::from_size(self.avg as u32) } else { FilterBits(self.bits) }, min_chunk_size: self.min, max_chunk_size: self.max, window_size: self.window };
         match self.alg {
             0 => Config::BuzHash(f),
             1 => Config::RollSum(f),
@@ -207,7 +218,7 @@ impl Conf {
         }
         let clamp = |v: usize| -> i64 { if v as u64 > i32::MAX as u64 { i32::MAX as i64 } else { v as i64 } };
         json!({"alg": self.alg, "bits": self.bits, "min": clamp(self.min), "max": clamp(self.max), "window": clamp(self.window), "hash_len": self.hl,
-               "min_s": format!("{}", self.min), "max_s": format!("{}", self.max), "window_s": format!("{}", self.window),
+               "avg": self.avg, "min_s": format!("{}", self.min), "max_s": format!("{}", self.max), "window_s": format!("{}", self.window),
                "ctype": self.ctype, "clevel": self.clevel,
                "metadata": md.iter().map(|(k, v)| json!({"k": k, "v": hex(v)})).collect::<Vec<_>>()})
     }
@@ -217,7 +228,7 @@ impl Conf {
             2 => a.extend(["--fixed-size".into(), format!("{}", self.max)]),
             _ => a.extend([
                 "--hash-chunking".into(), if self.alg == 0 { "BuzHash".to_string() } else { "RollSum".to_string() },
-                "--avg-chunk-size".into(), format!("{}", 1usize << (self.bits + 1)),
+                "--avg-chunk-size".into(), format!("{}", if self.avg > 0 { self.avg } else { 1usize << (self.bits + 1) }),
                 "--min-chunk-size".into(), format!("{}", self.min),
                 "--max-chunk-size".into(), format!("{}", self.max),
                 "--rolling-window-size".into(), format!("{}", self.window),
@@ -388,6 +399,15 @@ impl Cli {
         let input = format!("{}/in_{}.bin", self.dir, tag);
         let output = format!("{}/out_{}.cba", self.dir, tag);
         let _ = std::fs::remove_file(&output);
+        // a stale file at the path of the temporary chunk file (what an interrupted earlier compress leaves behind), longer or shorter than the chunk data to come
+        let (existing, stale) = match existing.split_once('+') { Some((a, b)) => (a, b), None => (existing, "") };
+        let tmp_path = std::path::Path::new(&output).with_extension(".tmp");
+        let _ = std::fs::remove_file(&tmp_path);
+        if stale == "tmplong" {
+            std::fs::write(&tmp_path, vec![0xCDu8; conf.data.len() * 2 + 300_000]).unwrap();
+        } else if stale == "tmpshort" {
+            std::fs::write(&tmp_path, vec![0xCDu8; 11]).unwrap();
+        }
         // --force-create onto an existing file (longer or shorter than the archive to be written)
         if existing == "longer" {
             std::fs::write(&output, vec![0xABu8; conf.data.len() * 2 + 100_000]).unwrap();
